@@ -170,7 +170,7 @@ def run_job(job):
         w = world()
         workload = make_workload(job["wl"])
         ex = Explorer(w, workload, [GroupMonitor(kind, members)], job["budget"], max_states=300000,
-                      time_cap=job.get("time_cap", 1200)).run()
+                      time_cap=job.get("time_cap", 600)).run()
         res = result_from(ex, "e1")
         res["job_spec"] = job
         res["executions"] = 0
@@ -186,7 +186,7 @@ def run_job(job):
         extra = "retention"
     try:
         s = run_engine_scenario(workload, skip, scripts, e3_oracle(kind, members, flags), job["bound"], shard=job.get("shard"),
-                                time_cap=job.get("time_cap", 1200), extra_scripts=[extra] if extra else None)
+                                time_cap=job.get("time_cap", 600), extra_scripts=[extra] if extra else None)
     finally:
         HOOKS.on_commit = None
     viols, seen = [], set()
